@@ -4,7 +4,7 @@
    implementation's own observations (coefficients, energies at samples, tokens of the text).
    Variables, vartypes, bounds and constraint labels are compared exactly by the worker. *)
 From Coq Require Import List ZArith NArith QArith Qcanon Bool Arith.
-From Dimod Require Import Base.Util Model.Poly Model.LP Model.LPTok Model.LPRead.
+From Dimod Require Import Base.Util Model.Poly Model.LP Model.LPTok Model.LPRead Model.LPLex.
 Import ListNotations.
 Open Scope Qc_scope.
 
@@ -26,7 +26,18 @@ Inductive case :=
 (* several accepted labels as the binary variables of a small model, in this order (they are adjacent
    only in the Binary section): did loads (dumps cqm) give the model back? *)
 | KReadsNames (names : list text) (came_back : bool)
-| KParse (n : nat) (toks : list token) (obj1 : obs) (cons1 : list (nat * conobs)) (vars1 : list varinfo).
+| KParse (n : nat) (toks : list token) (obj1 : obs) (cons1 : list (nat * conobs)) (vars1 : list varinfo)
+(* the CHARACTERS of the text lp.dumps produced, the labels of the model (variables in index order,
+   constraints in order), the numerals of the text whose decimal value is not a double with the double
+   Python's float() gives, and what the C++ reader made of that text: the Coq model of the reader's
+   tokenizer and keyword stage (Model/LPLex.v) followed by the reference parser must build the same *)
+| KLexParse (n : nat) (output : text) (tbl : numtable) (names cons : list text)
+            (obj1 : obs) (cons1 : list (nat * conobs)) (vars1 : list varinfo)
+(* KTrip, KParse and KLexParse of one round trip in one term (the text is carried once): `labels` are the
+   n variable labels followed by the constraint labels *)
+| KTripFull (n : nat) (obj0 obj1 : obs) (cns : list (conobs * conobs)) (probes : list probe)
+            (writes : list text) (output : text) (labels : list (option text))
+            (toks : list token) (cons1 : list (nat * conobs)) (vars1 : list varinfo) (tbl : numtable).
 
 Definition to_constr (k : conobs) : constr := mkConstr (obs_poly (k_lhs k)) (k_sense k) (k_rhs k).
 
@@ -75,19 +86,40 @@ Definition parse_ok (n : nat) (toks : list token) (obj1 : obs) (cons1 : list (na
       && forallb (fun v => mem_nat v (map vi_label vars1)) (model_names m)
   end.
 
+Definition trip_ok (n : nat) (obj0 obj1 : obs) (cns : list (conobs * conobs)) (probes : list probe)
+  (writes : list text) (output : text) (labels : list (option text)) : bool :=
+  poly_coeff_eqb n (read_objective (write_objective (obs_poly obj0))) (obs_poly obj1)
+  && poly_coeff_eqb n (obs_poly obj0) (obs_poly obj1)
+  && forallb (con_ok n) cns
+  && forallb (probe_ok obj0 cns) probes
+  && text_eqb (wrap writes) output
+  && sealedb writes
+  && list_eqb text_eqb (tokens output) (flat_map tokens writes)
+  && forallb validate_label labels.
+
+Definition lexparse_ok (n : nat) (output : text) (tbl : numtable) (names clabels : list text)
+  (obj1 : obs) (cons1 : list (nat * conobs)) (vars1 : list varinfo) : bool :=
+  numtable_ok tbl
+  && match read_tokens tbl names clabels output with
+     | Some toks => parse_ok n toks obj1 cons1 vars1
+     | None => false
+     end.
+
+Definition some_texts (l : list (option text)) : list text :=
+  flat_map (fun o => match o with Some t => [t] | None => [] end) l.
+
 Definition check (c : case) : bool :=
   match c with
   | KTrip n obj0 obj1 cns probes writes output labels =>
-      poly_coeff_eqb n (read_objective (write_objective (obs_poly obj0))) (obs_poly obj1)
-      && poly_coeff_eqb n (obs_poly obj0) (obs_poly obj1)
-      && forallb (con_ok n) cns
-      && forallb (probe_ok obj0 cns) probes
-      && text_eqb (wrap writes) output
-      && sealedb writes
-      && list_eqb text_eqb (tokens output) (flat_map tokens writes)
-      && forallb validate_label labels
+      trip_ok n obj0 obj1 cns probes writes output labels
+  | KTripFull n obj0 obj1 cns probes writes output labels toks cons1 vars1 tbl =>
+      trip_ok n obj0 obj1 cns probes writes output labels
+      && parse_ok n toks obj1 cons1 vars1
+      && lexparse_ok n output tbl (some_texts (firstn n labels)) (some_texts (skipn n labels)) obj1 cons1 vars1
   | KRefuse m raised => Bool.eqb (negb (dump_ok m)) raised
   | KParse n toks obj1 cons1 vars1 => parse_ok n toks obj1 cons1 vars1
+  | KLexParse n output tbl names clabels obj1 cons1 vars1 =>
+      lexparse_ok n output tbl names clabels obj1 cons1 vars1
   | KReadsNames names came_back =>
       forallb (fun s => validate_label (Some s)) names
       && Bool.eqb (names_section_read names) came_back
